@@ -24,10 +24,13 @@ theorem C27_no_unacked_drop (s : St) (e : Ev) (hr : s.qos.reliable = true) (sn :
     ∀ p ∈ (step s e).1.proxies, p.reliable = true → sn ≤ p.highestAcked := by
   rw [← isAckedBy_true_iff]
   cases e with
-  | write k v ts now => exact methodWrite_evicted s k v ts now sn hm hr
+  | write k v ts now =>
+    exact methodWrite_evicted _ k v ts now sn hm (by rw [(removeStale_frame s now).1]; exact hr)
   | acknack rid base set count now =>
     simp only [step, onAcknack] at hm ⊢
-    exact processPending_evicted _ now sn hm hr
+    refine processPending_evicted _ now sn hm ?_
+    show (removeStale s now).qos.reliable = true
+    rw [(removeStale_frame s now).1]; exact hr
   | tick now =>
     simp only [step, tick, tickRest] at hm ⊢
     rw [poke_acked]
@@ -39,28 +42,7 @@ theorem C27_no_unacked_drop (s : St) (e : Ev) (hr : s.qos.reliable = true) (sn :
 theorem C27_no_unacked_drop_run (q : Qos) (hr : q.reliable = true) (evs : List Ev) (e : Ev) (sn : Nat)
     (hm : sn ∈ (step (run (St.init q) evs) e).2.evicted) :
     ∀ p ∈ (step (run (St.init q) evs) e).1.proxies, p.reliable = true → sn ≤ p.highestAcked := by
-  have hq : ∀ (evs : List Ev) (s : St), (run s evs).qos = s.qos := by
-    intro evs
-    induction evs with
-    | nil => intro s; rfl
-    | cons e es ih =>
-      intro s
-      simp only [run]
-      rw [ih]
-      cases e with
-      | write k v ts now =>
-        simp only [step, methodWrite]
-        split
-        · split
-          · split <;> rfl
-          · simp [entOut, entWrite_qos, evict]
-        · simp [entOut, entWrite_qos]
-      | acknack rid base set count now => simp only [step, onAcknack]; rw [processPending_qos]
-      | tick now =>
-        simp only [step, tick, tickRest]
-        rw [(poke_frame _ now).1, processPending_qos, (checkTimeout_frame _ now).1, (removeStale_frame s now).1]
-      | matchReader rid rel tl => simp [step, matchReader]
-  exact C27_no_unacked_drop _ e (by rw [hq]; exact hr) sn hm
+  exact C27_no_unacked_drop _ e (by rw [run_qos]; exact hr) sn hm
 
 /-- C27 (a write that must wait blocks): the instance is full and its oldest sample is unacknowledged by some
     matched reliable reader ⇒ the call gets no answer yet, nothing is stored or sent, and the write is parked with
@@ -111,6 +93,23 @@ theorem processPending_no_timeout (s : St) (now : Int) : (processPending s now).
         rcases entWrite_reply { s with pending := none } p.key p.val p.ts now with h | h <;> simp [h]
     · simp [Out.none]
 
+theorem methodWrite_no_timeout (s : St) (k : Nat) (v : Int) (ts now : Int) :
+    (methodWrite s k v ts now).2.reply ≠ some .timeout := by
+  intro h
+  simp only [methodWrite] at h
+  cases hf : fullFront s k with
+  | none =>
+    simp only [hf, entOut] at h
+    rcases entWrite_reply s k v ts now with hc | hc <;> simp [hc] at h
+  | some sn =>
+    simp only [hf] at h
+    by_cases hb : (s.qos.reliable && !(isAcked s sn)) = true
+    · rw [if_pos hb] at h
+      split at h <;> simp [Out.none] at h
+    · rw [if_neg hb] at h
+      simp only [entOut] at h
+      rcases entWrite_reply (evict s k sn) k v ts now with hc | hc <;> simp [hc] at h
+
 /-- C27 (no early and no spurious Timeout): a step answers Timeout ONLY if it is a worker iteration, a write is
     parked, its expiration is finite and the clock of that iteration has reached it. In particular every
     iteration before start + max_blocking_time leaves the write parked or completes it, and a write with
@@ -118,21 +117,7 @@ theorem processPending_no_timeout (s : St) (now : Int) : (processPending s now).
 theorem C27_timeout_only_at_expiry (s : St) (e : Ev) (h : (step s e).2.reply = some .timeout) :
     ∃ now p ex, e = .tick now ∧ s.pending = some p ∧ p.expiration = some ex ∧ now ≥ ex := by
   cases e with
-  | write k v ts now =>
-    exfalso
-    simp only [step, methodWrite] at h
-    cases hf : fullFront s k with
-    | none =>
-      simp only [hf, entOut] at h
-      rcases entWrite_reply s k v ts now with hc | hc <;> simp [hc] at h
-    | some sn =>
-      simp only [hf] at h
-      by_cases hb : (s.qos.reliable && !(isAcked s sn)) = true
-      · rw [if_pos hb] at h
-        split at h <;> simp [Out.none] at h
-      · rw [if_neg hb] at h
-        simp only [entOut] at h
-        rcases entWrite_reply (evict s k sn) k v ts now with hc | hc <;> simp [hc] at h
+  | write k v ts now => exact absurd h (methodWrite_no_timeout _ k v ts now)
   | acknack rid base set count now =>
     exfalso
     simp only [step, onAcknack] at h
@@ -175,31 +160,39 @@ theorem C27_ok_only_after_ack (s : St) (now : Int) (p : Pending) (hp : s.pending
   · rw [if_neg hcw] at h
     simp [Out.none] at h
 
+theorem methodWrite_pending_kept (s : St) (k : Nat) (v : Int) (ts now : Int) (p : Pending) (hp : s.pending = some p)
+    (h : (methodWrite s k v ts now).2.reply = none) : (methodWrite s k v ts now).1.pending = some p := by
+  simp only [methodWrite] at h ⊢
+  cases hf : fullFront s k with
+  | none => simp [hf, entOut] at h
+  | some sn =>
+    simp only [hf] at h ⊢
+    by_cases hb : (s.qos.reliable && !(isAcked s sn)) = true
+    · rw [if_pos hb] at h ⊢
+      simp [hp] at h
+    · rw [if_neg hb] at h
+      simp [entOut] at h
+
+theorem processPending_pending_kept (s : St) (now : Int) (p : Pending) (hp : s.pending = some p)
+    (h : (processPending s now).2.reply = none) : (processPending s now).1.pending = some p := by
+  simp only [processPending, hp] at h ⊢
+  split at h
+  · split at h <;> simp [entOut] at h
+  · rename_i hcw; rw [if_neg hcw]; exact hp
+
 /-- a parked write stays parked, unchanged, until the step that answers it -/
 theorem C27_pending_kept (s : St) (e : Ev) (p : Pending) (hp : s.pending = some p)
     (h : (step s e).2.reply = none) : (step s e).1.pending = some p := by
+  have hrp : ∀ now, (removeStale s now).pending = some p := by
+    intro now; rw [(removeStale_frame s now).2.2.2.2]; exact hp
   cases e with
-  | write k v ts now =>
-    simp only [step, methodWrite] at h ⊢
-    cases hf : fullFront s k with
-    | none => simp [hf, entOut] at h
-    | some sn =>
-      simp only [hf] at h ⊢
-      by_cases hb : (s.qos.reliable && !(isAcked s sn)) = true
-      · rw [if_pos hb] at h ⊢
-        simp [hp] at h
-      · rw [if_neg hb] at h
-        simp [entOut] at h
+  | write k v ts now => exact methodWrite_pending_kept _ k v ts now p (hrp now) h
   | acknack rid base set count now =>
     simp only [step, onAcknack] at h ⊢
-    simp only [processPending, hp] at h ⊢
-    split at h
-    · split at h <;> simp [entOut] at h
-    · rename_i hcw; rw [if_neg hcw]
+    exact processPending_pending_kept _ now p (hrp now) h
   | tick now =>
     simp only [step, tick, tickRest] at h ⊢
     rw [(poke_frame _ now).2.2.2.1]
-    have hrp : (removeStale s now).pending = some p := by rw [(removeStale_frame s now).2.2.2.2]; exact hp
     cases hc2 : (checkTimeout (removeStale s now) now).2 with
     | some r => rw [hc2] at h; simp [pickReply] at h
     | none =>
@@ -207,7 +200,7 @@ theorem C27_pending_kept (s : St) (e : Ev) (p : Pending) (hp : s.pending = some 
       simp only [pickReply] at h
       have hc1 : (checkTimeout (removeStale s now) now).1 = removeStale s now := by
         unfold checkTimeout at hc2 ⊢
-        rw [hrp] at hc2 ⊢
+        rw [hrp now] at hc2 ⊢
         simp only at hc2 ⊢
         split at hc2
         · rfl
@@ -215,10 +208,7 @@ theorem C27_pending_kept (s : St) (e : Ev) (p : Pending) (hp : s.pending = some 
           · simp at hc2
           · rename_i hh; simp [hh]
       rw [hc1] at h ⊢
-      simp only [processPending, hrp] at h ⊢
-      split at h
-      · split at h <;> simp [entOut] at h
-      · rename_i hcw; rw [if_neg hcw]; exact hrp
+      exact processPending_pending_kept _ now p (hrp now) h
   | matchReader rid rel tl => simp [step, matchReader, hp]
 
 /-- non-vacuity / regression witness: KEEP_LAST(1), RELIABLE, max_blocking 130 ms, one reliable reader that has
